@@ -9,6 +9,11 @@ import (
 
 var wrapKeys = []string{"spec", "data", "foo", "rules", "items", "prometheus", "alerting_rules.yml", "x-y", "group", "metadata"}
 
+// wrapKeysTyped: parent keys that YAML does not resolve to plain strings (integers, floats, booleans, null,
+// timestamps), quoted and tagged keys, keys with spaces and non-ASCII text.  Emitted verbatim.
+var wrapKeysTyped = []string{"1", "2024", "-3", "1.5", "0x1f", "true", "no", "~", "null", "2024-01-01", "1e3", ".inf",
+	`"1"`, `'true'`, `"quoted key"`, `'it''s'`, "!!str 5", "clé", "a b c", "日本"}
+
 func sibling(t *rapid.T, lbl string) Pair {
 	// never a rule field name (alert, record, expr, for, labels, annotations ...):
 	// pint treats those as an attempt to write a rule
@@ -62,8 +67,12 @@ func Wrap(t *rapid.T, inner *Node, levels int, seqOK bool, used map[string]int) 
 		for i := 0; i < nb; i++ {
 			addSib(fmt.Sprintf("%s.b%d", lbl, i))
 		}
-		key := rapid.SampledFrom(wrapKeys).Draw(t, lbl+".key")
-		m.Pairs = append(m.Pairs, Pair{Key: P(key), Val: cur})
+		key := P(rapid.SampledFrom(wrapKeys).Draw(t, lbl+".key"))
+		if rapid.IntRange(0, 3).Draw(t, lbl+".typedkey") == 0 {
+			key = Raw(rapid.SampledFrom(wrapKeysTyped).Draw(t, lbl+".tkey"))
+			used["typed-parent-key"]++
+		}
+		m.Pairs = append(m.Pairs, Pair{Key: key, Val: cur})
 		na := rapid.IntRange(0, 2).Draw(t, lbl+".nafter")
 		for i := 0; i < na; i++ {
 			addSib(fmt.Sprintf("%s.a%d", lbl, i))
